@@ -98,6 +98,25 @@ func (g *scopeGen) declare() bool {
 		return false
 	}
 	n := cand[g.rng.Intn(len(cand))]
+	if len(cand) >= 2 && g.nin+2 < g.maxIn && g.rng.Intn(4) == 0 {
+		// a multi-name declaration: every name not yet declared IN THIS BLOCK is new here (also when an enclosing
+		// block or the parameter list has one of that name)
+		m := cand[g.rng.Intn(len(cand))]
+		for m == n {
+			m = cand[g.rng.Intn(len(cand))]
+		}
+		if g.rng.Intn(2) == 0 {
+			g.line("%s, %s := %s, %s", n, m, g.in(), g.in())
+			g.kinds["multi-:="]++
+		} else {
+			g.line("var %s, %s = %s, %s", n, m, g.in(), g.in())
+			g.kinds["multi-var"]++
+		}
+		g.scopes[len(g.scopes)-1][n] = true
+		g.scopes[len(g.scopes)-1][m] = true
+		g.line("_, _ = %s, %s", n, m)
+		return true
+	}
 	switch g.rng.Intn(4) {
 	case 0:
 		g.line("var %s int = %s", n, g.in())
@@ -205,22 +224,28 @@ func (g *scopeGen) stmt(tag *int) {
 			return
 		}
 		k, v := scopeNames[g.rng.Intn(3)], scopeNames[g.rng.Intn(3)]
+		// the range expression is evaluated OUTSIDE the scope of the loop variables: it may mention their names
+		src1, src2 := g.in(), g.in()
+		if vis := g.visible(); len(vis) > 0 && g.rng.Intn(2) == 0 {
+			src1 = vis[g.rng.Intn(len(vis))]
+			g.kinds["range-expr-mentions-outer-name"]++
+		}
 		g.push()
 		switch {
 		case k == v || g.rng.Intn(3) == 0:
 			g.scopes[len(g.scopes)-1][v] = true
-			g.line("for _, %s := range []int{%s, %s} {", v, g.in(), g.in())
+			g.line("for _, %s := range []int{%s, %s} {", v, src1, src2)
 			g.useFirst = []string{v}
 			g.kinds["range-value"]++
 		case g.rng.Intn(2) == 0:
 			g.scopes[len(g.scopes)-1][k] = true
-			g.line("for %s := range []int{%s, %s} {", k, g.in(), g.in())
+			g.line("for %s := range []int{%s, %s} {", k, src1, src2)
 			g.useFirst = []string{k}
 			g.kinds["range-key"]++
 		default:
 			g.scopes[len(g.scopes)-1][k] = true
 			g.scopes[len(g.scopes)-1][v] = true
-			g.line("for %s, %s := range []int{%s, %s} {", k, v, g.in(), g.in())
+			g.line("for %s, %s := range []int{%s, %s} {", k, v, src1, src2)
 			g.useFirst = []string{k, v}
 			g.kinds["range-key-value"]++
 		}
